@@ -134,6 +134,14 @@ def alphabet(spec: dict, tier: str, full: bool = False) -> t.List[tuple]:
         pl = dict(bases[-1])
         pl[n] = (pl[n][:-1] if n in pl and pl[n][0] in ('next', 'next0') else []) + ['raise:E1']
         out.append((f'fail-{n}', pl, {'x': 1}, 'first'))
+    if any(nd.get('use_default') for nd in spec['nodes'].values()):
+        # the same failure with another input: a fallback value must be computed from THIS run's arguments
+        for n, nd in spec['nodes'].items():
+            if nd.get('use_default'):
+                pl = dict(bases[-1])
+                pl[n] = (pl[n][:-1] if n in pl and pl[n][0] in ('next', 'next0') else []) + ['raise:E1']
+                out.insert(2, (f'fail-x2-{n}', pl, {'x': 2}, 'first'))
+                out.insert(2, (f'fail-x1-{n}', pl, {'x': 1}, 'first'))
     if 'oneof' in S.kinds_used(spec):
         for n, nd in spec['nodes'].items():
             for kw, kind, arg in nd['params']:
